@@ -187,7 +187,8 @@ impl Hypergeometric {
         let k = if sample_size <= n / 2 {
             sample_size
         } else {
-            offset_x += n1 as i64 * sign_x;
+            // two's-complement arithmetic: populations above i64::MAX are representable mod 2^64
+            offset_x = offset_x.wrapping_add((n1 as i64).wrapping_mul(sign_x));
             sign_x *= -1;
             n - sample_size
         };
@@ -201,7 +202,8 @@ impl Hypergeometric {
         // J. Statist. Comput. Simul. Vol.22 (August 1985), 127-145
         // https://www.researchgate.net/publication/233212638
         const HIN_THRESHOLD: f64 = 10.0;
-        let m = ((k + 1) as f64 * (n1 + 1) as f64 / (n + 2) as f64).floor();
+        // widen before adding: `n + 2` overflows u64 for populations within 2 of u64::MAX
+        let m = ((k as u128 + 1) as f64 * (n1 as u128 + 1) as f64 / (n as u128 + 2) as f64).floor();
         let sampling_method = if m - f64::max(0.0, k as f64 - n2 as f64) < HIN_THRESHOLD {
             let (initial_p, initial_x) = if k < n2 {
                 (
@@ -444,7 +446,7 @@ impl Distribution<u64> for Hypergeometric {
             }
         };
 
-        (offset_x + sign_x * x) as u64
+        offset_x.wrapping_add(sign_x.wrapping_mul(x)) as u64
     }
 }
 
